@@ -26,16 +26,10 @@
 (* SHA-256.  Public keys are opaque tokens concretized with real ECDSA     *)
 (* P-256 / SM2 / Ed25519 keys.                                             *)
 (*                                                                         *)
-(* Table (P-TABLE): Init picks an object, Pick a mutant of its encoding    *)
-(* (cuts at part boundaries -1/0/+1, count and length prefixes set to      *)
-(* 0 / n-1 / n+1 / non-canonical / 0xFFFF / 2^48 / 2^63-1 / 2^63 / 2^64-1, *)
-(* out-of-range version / type / coin type, bool bytes, single-byte frame  *)
-(* corruptions, header-field mutants, garbage streams), Decide prints the  *)
-(* row with the monitor field `must` and the model's prediction `exp`.     *)
-(* Monitor: "same" (valid encoding: decodes to the same value, identity =  *)
-(* DSha(unsigned bytes)), "reject" (the property names the refusal),       *)
-(* "free" (anything but a panic).  PropC02 / PropC05: the prediction of    *)
-(* the Repaired model satisfies the monitor on every row.                  *)
+(* The decision tables over this module (objects, mutants, monitor,        *)
+(* PropC02 / PropC05) are in WireTable.tla.  Repaired = TRUE bounds the    *)
+(* counts before allocating / slicing (the repaired design); FALSE is the  *)
+(* code as it is, where the named deviations predict "panic".              *)
 (***************************************************************************)
 EXTENDS Codec, Json
 
